@@ -1095,6 +1095,11 @@ impl MachineState {
                     _ => {
                         push_cell!(self, heap_loc_as_cell!(h), return);
                         self.occurs_check.bind(self, Ref::heap_cell(h), value);
+
+                        if self.fail {
+                            self.backtrack();
+                            return;
+                        }
                     }
                 );
             }
